@@ -44,7 +44,7 @@ def known(case, obs, failure):
 
 
 FAMILIES = [
-    progs.program_family("programs", oracles.oracle_c02, 120, 2500, deep=dict(depth=7, width=5), **dict(fault=0.6, registry_rate=0.6, p_fault_ser=0.0, depth=4, p_finish_inside=0.06)),
+    progs.program_family("programs", oracles.oracle_c02, 120, 2500, deep=dict(depth=7, width=5), **dict(p_reseed=0.3, p_reserved=0.15, fault=0.6, registry_rate=0.6, p_fault_ser=0.0, depth=4, p_finish_inside=0.06)),
 ]
 from lib import oplists
 from lib.framework import Family
